@@ -14,7 +14,7 @@ def jobs(tier, ctx):
     # arrays: a symbolic element pointer makes the copied type tag symbolic and forks the whole release code (no verdict
     # in 200 s), so array (size, index) pairs are concrete per run, including the boundary and 32-bit-truncation indices;
     # element values and everything else stay symbolic.  Strings and buffers above keep the index fully symbolic.
-    idx = [-1, 0, 1, 2, 3, 4294967296, 4294967297, -4294967295] if tier == 'quick' else [-2147483649, -1, 0, 1, 2, 3, 2147483648, 4294967295, 4294967296, 4294967297, 4294967298, -4294967295, 9223372036854775807]
+    idx = [-1, 0, 1, 2, 4294967296] if tier == 'quick' else [-2147483649, -1, 0, 1, 2, 3, 2147483648, 4294967295, 4294967296, 4294967297, 4294967298, -4294967295, 9223372036854775807]
     for op in ('F_INDEX', 'F_RINDEX'):
         for ln in ((2,) if tier == 'quick' else (0, 1, 2, 3)):
             for k in idx:
@@ -23,9 +23,29 @@ def jobs(tier, ctx):
     for op in ('F_INDEX_LVALUE', 'F_RINDEX_LVALUE'):
         for c in ('LVARR', 'LVSTR', 'LVBUF'):
             add(op, ['NUM', c], oracle=['LVAL'])
+    # ranges on strings and buffers: both indices fully symbolic int64
+    for op in ('F_NN_RANGE', 'F_RN_RANGE', 'F_NR_RANGE', 'F_RR_RANGE'):
+        for c in ('STR', 'BUF'):
+            add(op, ['NUM', 'NUM', c])
+    for op in ('F_NE_RANGE', 'F_RE_RANGE'):
+        for c in ('STR', 'BUF'):
+            add(op, ['NUM', c])
+    # arithmetic / comparison / bit operators on every scalar pairing the switch distinguishes
+    pairs = [('NUM', 'NUM'), ('NUM', 'REAL'), ('REAL', 'NUM'), ('STR', 'STR'), ('STR', 'NUM'), ('NUM', 'STR'), ('BUF', 'BUF'), ('ARR', 'NUM')]
+    ops2 = ['F_ADD', 'F_SUBTRACT', 'F_MULTIPLY', 'F_DIVIDE', 'F_MOD', 'F_EQ', 'F_NE', 'F_LT', 'F_LE', 'F_GT', 'F_GE', 'F_AND', 'F_OR', 'F_XOR', 'F_LSH', 'F_RSH']
+    for op in ops2:
+        for (a, b) in (pairs if (tier != 'quick' or op == 'F_ADD') else (pairs[:3] if op in ('F_DIVIDE', 'F_MOD') else (pairs[:1] + pairs[3:4] if op in ('F_LT', 'F_EQ') else []))):
+            add(op, [a, b], checks=(['--signed-overflow-check'] if op in ('F_DIVIDE', 'F_MOD') else []))
+    for op in ('F_NEGATE', 'F_NOT', 'F_COMPL', 'F_POP_VALUE'):
+        for a in (('NUM', 'REAL', 'STR', 'ARR') if tier != 'quick' else ('NUM', 'STR')):
+            add(op, [a])
     if tier != 'quick':
         for c in ('NUM', 'REAL', 'OBJ'):
             add('F_INDEX', ['NUM', c])
         for c in INDEXED:
             add('F_INDEX', ['STR', c])
+    out.append(dict(name='error.msg_buffer', srcs=['@harness/C01/error_fmt.c'], stubs=['@world/world_base.c', '@world/libc_models.c', '@harness/C01/error_stubs.c'],
+                    defs=['MODE_ERROR=1'], cuts=['error_handler', 'mudlib_error_handler', 'debug_message_with_location'], unwind=4, targets=['error'], timeout=200, mem_gb=4,
+                    desc='real error() with vsnprintf reporting any length >= -1: msg[len-1], msg[len], msg[len+1] stay inside the 8 KiB buffer',
+                    inputs='return value of vsnprintf', assumptions=['vsnprintf is a stub returning any int >= -1 (its man-page contract)']))
     return out
